@@ -13,11 +13,11 @@ CASES = [
          edits=[dict(file=OPS, old='">>": "RShift"', new='">>": "LShift"')]),
     dict(name='drop-row-not-in', kind='mutant', rule='R1', key="'not in'",
          edits=[dict(file=OPS, old='    "not in": "NotIn",\n', new='')]),
-    dict(name='compare-table-walks-BinOp', kind='mutant', rule='R3', key='COMPARE_OP_NAMES:kind',
+    dict(name='compare-table-walks-BinOp', kind='mutant', rule='R3', key="find_operation('==')",
          edits=[dict(file=FIND, old='root.find_all("Compare")', new='root.find_all("BinOp")')]),
-    dict(name='binop-arm-no-equality', kind='mutant', rule='R3', key='BIN_OP_NAMES:compare',
+    dict(name='binop-arm-no-equality', kind='mutant', rule='R3', key="find_operation('+')",
          edits=[dict(file=FIND, old='if binop.op_name == BIN_OP_NAMES[op_name]:', new='if binop.op_name:')]),
-    dict(name='compare-only-first-op', kind='mutant', rule='R3', key='COMPARE_OP_NAMES',
+    dict(name='compare-only-first-op', kind='mutant', rule='R3', key="find_operation('<')",
          edits=[dict(file=FIND, old='            for op in compare.ops:\n                if op.ast_name == COMPARE_OP_NAMES[op_name]:\n                    found.append(compare)',
                      new='            op = compare.ops[0]\n            if op.ast_name == COMPARE_OP_NAMES[op_name]:\n                found.append(compare)')]),
     dict(name='symbol-in-two-tables', kind='mutant', rule='R3', key='disjoint',
@@ -56,7 +56,7 @@ class ensure_ast""")]),
     dict(name='num-includes-bool', kind='mutant', rule='R6', key='[Num](True)',
          edits=[dict(file=NODE, old="isinstance(node.value, (int, float)) and not isinstance(node.value, bool):",
                      new="isinstance(node.value, (int, float)):")]),
-    dict(name='str-also-bytes', kind='mutant', rule='R6', key="[Str](b'x')",
+    dict(name='str-also-bytes', kind='mutant', rule='R6', key="find_all('Str')",
          edits=[dict(file=NODE, old="actual_node == 'Str' and isinstance(node.value, str)",
                      new="actual_node == 'Str' and isinstance(node.value, (str, bytes))")]),
     dict(name='revert-fix-typed-equality', kind='mutant', rule='R7', key='primitive_compare',
@@ -65,7 +65,7 @@ class ensure_ast""")]),
                      new="""                        is_match = inssub_value == stdsub_value""")]),
     dict(name='ast_name-returns-field', kind='mutant', rule='R2', key='ast_name',
          edits=[dict(file=NODE, old="        if key == 'ast_name':\n            return node_name", new="        if key == 'ast_name':\n            return self.field")]),
-    dict(name='get_ast_name-lowercases', kind='mutant', rule='R2', key='get_ast_name',
+    dict(name='get_ast_name-lowercases', kind='mutant', rule='R2', key='ast_name',
          edits=[dict(file=NODE, old="        return type(node).__name__\n", new="        return type(node).__name__.lower()\n", count=1)]),
     # benign twins
     dict(name='twin-typed-equality-tuple-form', kind='twin',
